@@ -132,6 +132,7 @@ func (l AbstractListSchema[ItemType]) ValidateCompatibility(typeOrData any) erro
 	// Check if it's just a list, if so, validate the individual items.
 	if valueKind == reflect.Slice {
 		// We don't know the type of the list, so just use reflection to get any values.
+		value = reflect.Indirect(value) // a pointer to a slice was recognised as a slice above
 		lengthOfSlice := value.Len()
 		for i := 0; i < lengthOfSlice; i++ {
 			itemInList := value.Index(i).Interface()
